@@ -3,6 +3,8 @@ import os, sys, json, time, hashlib, random, base64, traceback, collections, mul
 from . import drv as D
 
 VERIF = os.path.dirname(os.path.dirname(os.path.abspath(__file__)))
+# evidence/ and replays/ go here; VERIF_OUT_DIR redirects them (mutant and soak runs must not overwrite the committed evidence)
+OUT = os.environ.get('VERIF_OUT_DIR') or VERIF
 KNOWN_FILE = os.path.join(VERIF, 'known_findings.json')
 NPROC = int(os.environ.get('VERIF_JOBS', '16'))
 
@@ -117,7 +119,7 @@ class Check:
         # replay files are rewritten by every run
         import shutil
         if not os.environ.get('VERIF_KEEP_REPLAYS'):
-            shutil.rmtree(os.path.join(VERIF, 'replays', prop), ignore_errors=True)
+            shutil.rmtree(os.path.join(OUT, 'replays', prop), ignore_errors=True)
 
     @property
     def thorough(self):
@@ -167,7 +169,7 @@ class Check:
         for v in t.violations:
             by_key.setdefault(v.key, []).append(v)
         new, known_seen = [], []
-        rdir = os.path.join(VERIF, 'replays', self.prop)
+        rdir = os.path.join(OUT, 'replays', self.prop)
         for key, vs in by_key.items():
             e = self.known.status(key)
             if e:
@@ -213,12 +215,12 @@ class Check:
         cov.update(self.coverage_extra)
         ev = dict(property_id=self.prop, tier=self.tier, seed=self.seed, level=self.level, coverage=cov,
                   assumptions=self.assumptions, wall_s=round(wall, 2), violations=len(new))
-        os.makedirs(os.path.join(VERIF, 'evidence'), exist_ok=True)
-        tmp = os.path.join(VERIF, 'evidence', '%s.json.tmp%d' % (self.prop, os.getpid()))
+        os.makedirs(os.path.join(OUT, 'evidence'), exist_ok=True)
+        tmp = os.path.join(OUT, 'evidence', '%s.json.tmp%d' % (self.prop, os.getpid()))
         with open(tmp, 'w') as f:
             json.dump(ev, f, indent=1, sort_keys=True, default=_jsondefault)
             f.write('\n')
-        os.replace(tmp, os.path.join(VERIF, 'evidence', '%s.json' % self.prop))
+        os.replace(tmp, os.path.join(OUT, 'evidence', '%s.json' % self.prop))
         print('%s %s seed=%d: %d evaluations, %d distinct non-trivial, %d new violation key(s), %d known finding(s), '
               '%d inconclusive, %.1fs' % (self.prop, self.tier, self.seed, t.evaluations, len(t.distinct), len(new),
                                           len(known_seen), ninc, wall))
